@@ -19,7 +19,9 @@ EXPLANATION = (
     "analysis shows that State.copy returns fresh containers at both levels whose elements are fresh objects (no alias of the "
     "original reachable down to the fact / fluent objects) and that is_init is propagated; constructor field maps show that "
     "GroundedPredicate.copy / PDDLFunction.copy initialise every declared field from the same-named field of the original. "
-    "C14.serialize: the serialisation depends on both fields and on is_init (backward slice)."
+    "C14.serialize: the serialisation depends on both fields and on is_init (backward slice), the text starts with ':init' exactly "
+    "for an initial state (shape of the text under both valuations of is_init), and facts / fluents are written by the element "
+    "views __eq__ compares (untyped_representation / state_representation)."
 )
 UNDECIDED = ("injectivity of serialisation (equal texts only for equal states), the equivalence-relation laws over all pairs, "
              "equality after a print / parse round trip (C10)")
@@ -203,12 +205,15 @@ def _copy_summary(repo: Repo, eff, f: FuncInfo):
     s0 = eff.sums[f.qn]
     if d is s0.f or d.node is s0.f.node or getattr(d, "deep_of", None) is None:
         return s0
-    s = Summary(d)
-    for _ in range(12):
-        a = _Analyzer(eff, s)
-        a.run()
-        if not a.changed:
-            break
+    try:
+        s = Summary(d)
+        for _ in range(12):
+            a = _Analyzer(eff, s)
+            a.run()
+            if not a.changed:
+                break
+    except (AttributeError, TypeError, KeyError, RecursionError):
+        return s0
     return s
 
 
@@ -313,6 +318,36 @@ def rule_serialize(repo: Repo, rid: str = "C14.serialize") -> RuleResult:
         r.ok({"fields_in_result": sorted(got)})
     else:
         r.fail(Finding(rid, f, f"field-not-serialised:{'/'.join(sorted(need - got))}", f"serialize() does not depend on {sorted(need - got)}"))
+    # the label: ':init' is written for an initial state, ':state' otherwise (decided on the shape of the text under both valuations of is_init)
+    from .. import strshape as S
+    ev = S.Evaluator(repo, f)
+    pf = L.prov(repo, f)
+
+    def is_init_value(value: bool):
+        def val(e):
+            if isinstance(e, (ast.Attribute, ast.Name)):
+                try:
+                    tr = pf.trace(e)
+                except KeyError:
+                    return None
+                if tr and all(x == ("self", "attr:is_init") for x in tr):
+                    return value
+            return None
+        return val
+
+    for ret in L.func_returns(f):
+        if ret.value is None:
+            continue
+        try:
+            sh = ev.string(ret.value)
+            texts = {v: S.render(sh, lambda n: "", is_init_value(v)) for v in (True, False)}
+        except (S.NotInterpretable, TypeError, KeyError, RecursionError):
+            continue
+        head = {v: t.split("{")[0].split("[")[0] for v, t in texts.items()}
+        wrong_init = ":state" in head[True] and ":init" not in head[True]
+        wrong_state = ":init" in head[False] and ":state" not in head[False]
+        if (wrong_init or wrong_state) and ":init" in head[True] + head[False]:
+            r.fail(Finding(rid, f, "label", f"serialize() labels an initial state {head[True]!r} and a later state {head[False]!r}", node=ret))
     # the element views used by serialize are the ones __eq__ compares
     e = U.deep(repo, "State.__eq__")
     ser_views = set()
@@ -322,7 +357,8 @@ def rule_serialize(repo: Repo, rid: str = "C14.serialize") -> RuleResult:
                 ser_views.add(n.attr)
     eq_views = {n.attr for n in ast.walk(e.node) if isinstance(n, ast.Attribute) and n.attr in ("untyped_representation", "state_representation")}
     r.site(f.qn + " [views agree with __eq__]")
-    if ser_views == eq_views and ser_views:
+    # facts are written / compared by their untyped text, fluents by their assignment text (the two element views C14.views vouches for)
+    if ser_views == eq_views == {"untyped_representation", "state_representation"}:
         r.ok({"views": sorted(ser_views)})
     else:
         r.fail(Finding(rid, f, "views-differ", f"serialize prints {sorted(ser_views)} while __eq__ compares {sorted(eq_views)}"))
